@@ -289,7 +289,13 @@ func runWriterOps(c *WCase, ops []Op, startEpoch int, failing bool, emit func(WE
 					ev.Std = projectLib("std", c.Set.Kind, sink.Buf, data[:pos], dict, hdr)
 				}
 				if ev.Ev == "Close" {
-					ev.Fg = projectLib("fastgo", c.Set.Kind, sink.Buf, data[:pos], dict, hdr)
+					if c.Set.Impl == "std" {
+						// R3 validates the contract against the standard library's Writer; what fastgo's
+						// Reader makes of its output is not part of that (it is decided by the Reader checks)
+						ev.Fg = ev.Std
+					} else {
+						ev.Fg = projectLib("fastgo", c.Set.Kind, sink.Buf, data[:pos], dict, hdr)
+					}
 				}
 			}
 			emit(ev)
